@@ -1,8 +1,483 @@
-import Vgi.Model.HttpClient
+import Vgi.Proofs.HttpClient
+/-!
+# C21 — The native HTTP client returns the server's stream and never replays a cursor
+
+Property theorems about `Vgi.HttpClient` (model of `vgirpc/http_client.go`, executed by the
+driver `Vgi.Drive.C21`). Every statement quantifies over all responses (including every
+malformed shape the abstraction can express), all stream states and all histories of caller
+operations against arbitrary response sequences — no bound anywhere.
+
+Vocabulary (defined in `Vgi.Proofs.HttpClient`): `dataMsgs tid ms` are the server's data batches
+of a stream in order (everything that is neither a log/exception envelope nor, unless the call
+treats the cursor batch as data, a zero-row cursor-only batch); `strip m` is a data batch with the
+stream-state / call-state tokens removed from its metadata; `refuses m` marks an EXCEPTION
+envelope or an external-location pointer; `tokensOf r` are all cursors a response hands out;
+`scan` is the wire-trace check "no continuation request carries a burnt cursor".
+-/
 namespace Vgi.Props.C21
 open Vgi Vgi.HttpClient
 
-theorem closeOp_closed (s : Stream) : (closeOp s).closed = true := by
-  unfold closeOp; split <;> simp_all
+/-! ## 1. The caller gets exactly the server's data batches, tokens removed -/
+
+/-- Whatever `post`+`parseMain` accept is a 2xx response within both size caps, with a supported
+encoding, no RPC-error flag, exactly one IPC stream and no trailing bytes; the stream has the
+declared schema, was read to its end without error, contains no exception / external pointer, and
+the returned batches are exactly the server's data batches in order with the tokens stripped;
+cursor and call token are the last ones the stream carries. -/
+theorem returns_servers_batches {cfg : Cfg} {exp : Option String} {tid : Bool} {r : Resp} {p : Parsed}
+    (h : fetch cfg exp tid r = .ok p) :
+    ∃ status clen elen ce xce dec s,
+      r = .http status clen false elen ce xce dec false [s] 0 ∧
+      200 ≤ status ∧ status < 300 ∧
+      clen ≤ (cfg.maxEnc : Int) ∧ elen ≤ cfg.maxEnc ∧
+      validEnc (encOf ce xce) = true ∧
+      (∃ n, decodedLen elen (encOf ce xce) dec = some n ∧ n ≤ cfg.maxDec) ∧
+      (∃ sid, s.schema = some sid ∧ (exp = none ∨ exp = some sid)) ∧
+      s.readErr = false ∧
+      (∀ m ∈ s.msgs, refuses m = false) ∧
+      p.batches = (dataMsgs tid s.msgs).map strip ∧
+      p.token = lastNonEmpty "" (cursorSeq s.msgs) ∧
+      p.callToken = lastNonEmpty "" (callSeq s.msgs) :=
+  (fetch_ok h).shape
+
+/-- Metadata of a returned batch, key by key: a stream-state / call-state entry that carries a
+token is gone, every other entry is exactly the server's. -/
+theorem returned_metadata (m : Msg) (k : String) :
+    mdFind (strip m).md k =
+      if (k = kState ∨ k = kCall) ∧ mdGet (mapOf m) k ≠ "" then none else mdFind (mapOf m) k :=
+  stripTokens_find (mapOf m) k
+
+/-- No returned batch carries a framework token. -/
+theorem no_token_in_returned_metadata {cfg : Cfg} {exp : Option String} {tid : Bool} {r : Resp}
+    {p : Parsed} (h : fetch cfg exp tid r = .ok p) :
+    ∀ b ∈ p.batches, mdGet b.md kState = "" ∧ mdGet b.md kCall = "" := by
+  obtain ⟨_, _, _, _, _, _, s, _, _, _, _, _, _, _, _, _, _, hb, _, _⟩ := returns_servers_batches h
+  intro b hbm
+  rw [hb] at hbm
+  obtain ⟨m, _, rfl⟩ := List.mem_map.mp hbm
+  simp [strip, stripTokens_get]
+
+-- non-vacuity: a stream with a log, a data batch carrying a cursor + user metadata, and a
+-- cursor-only batch is accepted, and exactly the one data batch comes back without the cursor.
+def exMsgs : List Msg :=
+  [⟨0, "p0", "", [("L", "INFO"), ("M", "hello")]⟩,
+   ⟨2, "p1", "", [("u", "1"), ("S", "t1"), ("u", "2")]⟩,
+   ⟨0, "p2", "", [("S", "t2"), ("C", "c1")]⟩]
+def exResp : Resp := .http 200 (-1) false 900 "" "" none false [⟨some "sch", exMsgs, false⟩] 0
+example : fetch ⟨4096, 8192⟩ (some "sch") false exResp
+    = .ok ⟨[⟨"p1", 2, [("u", "2")]⟩], "t2", "c1"⟩ := by decide
+example : (dataMsgs false exMsgs).map strip = [⟨"p1", 2, [("u", "2")]⟩] := by decide
+
+/-! ## 2. Server exceptions are typed errors -/
+
+/-- The error built from an EXCEPTION envelope: its `exception_type` (default "Exception") and
+its log message. -/
+def excErr (e : Msg) : Err := excOf (mapOf e) e.xt
+
+/-- If the first refusing batch of a readable stream is an EXCEPTION envelope, `parseIPCStream`
+returns exactly the typed error built from that envelope — whatever the declared schema
+(so also when the server wrote the envelope under the empty schema), whatever follows it. -/
+theorem exceptions_typed (exp : Option String) (tid : Bool) (sid : String) (pre : List Msg) (e : Msg)
+    (post : List Msg) (rd : Bool)
+    (hpre : ∀ m ∈ pre, refuses m = false) (he : isExc e = true) :
+    parseStream exp tid ⟨some sid, pre ++ e :: post, rd⟩ = .error (excErr e) := by
+  have hexc_pre : ∀ m ∈ pre, isExc m = false := by
+    intro m hm
+    have := hpre m hm
+    simp only [refuses, Bool.or_eq_false_iff] at this
+    exact this.1
+  have hfirst : ∀ (l : List Msg), (∀ m ∈ l, isExc m = false) →
+      firstExc (l ++ e :: post) = some (excErr e) := by
+    intro l
+    induction l with
+    | nil =>
+      intro _
+      have he' : e.rows = 0 ∧ mdGet (toMap e.md) kLevel = lvlException := by
+        have := he; unfold isExc mapOf at this; exact of_decide_eq_true this
+      simp only [List.nil_append, firstExc, if_pos he', excErr, mapOf]
+    | cons m rest ih =>
+      intro hl
+      have hm : ¬ (m.rows = 0 ∧ mdGet (toMap m.md) kLevel = lvlException) := by
+        have := hl m (List.mem_cons_self ..); unfold isExc mapOf at this; exact of_decide_eq_false this
+      simp only [List.cons_append, firstExc, if_neg hm]
+      exact ih (fun x hx => hl x (List.mem_cons_of_mem _ hx))
+  unfold parseStream
+  simp only
+  split
+  · rw [hfirst pre hexc_pre]
+  · have hr : refuses e = true := by simp [refuses, he]
+    rw [parseMsgs_refused tid pre e post emptyParsed hpre hr]
+    simp [he, excErr]
+
+/-- Through `post`/`parseMain`: a 2xx response whose single stream has an EXCEPTION envelope as
+its first refusing batch makes every call that consumes it fail with that typed error. -/
+theorem exceptions_typed_fetch (cfg : Cfg) (exp : Option String) (tid : Bool) (r : Resp) (h : HttpOk)
+    (sid : String) (pre : List Msg) (e : Msg) (post' : List Msg) (rd : Bool) (more : List Ipc)
+    (hpost : post cfg r = .ok h) (hs : h.streams = ⟨some sid, pre ++ e :: post', rd⟩ :: more)
+    (hpre : ∀ m ∈ pre, refuses m = false) (he : isExc e = true) :
+    fetch cfg exp tid r = .error (excErr e) := by
+  unfold fetch
+  rw [hpost]
+  simp only [parseMain, hs, exceptions_typed exp tid sid pre e post' rd hpre he]
+
+example : fetch ⟨4096, 8192⟩ (some "declared") true
+    (.http 200 300 false 300 "" "" none true
+      [⟨some "empty-schema", [⟨0, "p", "x56616c75654572726f72", [("L", "EXC"), ("M", "boom")]⟩], false⟩] 0)
+    = .error (.exc "x56616c75654572726f72" "boom") := by decide
+
+/-! ## 3. Drift, wrong encoding, trailing bytes, oversize, error status are rejected -/
+
+/-- Schema drift: a stream whose schema differs from the declared one is never accepted. -/
+theorem drift_rejected_schema (cfg : Cfg) (decl sid : String) (tid : Bool) (status : Nat) (clen : Int)
+    (rdErr : Bool) (elen : Nat) (ce xce : String) (dec : Option Nat) (rpc : Bool) (s : Ipc)
+    (more : List Ipc) (trail : Nat) (hs : s.schema = some sid) (hne : decl ≠ sid) :
+    ∀ p, fetch cfg (some decl) tid (.http status clen rdErr elen ce xce dec rpc (s :: more) trail) ≠ .ok p := by
+  intro p h
+  obtain ⟨_, _, _, _, _, _, s', hr, _, _, _, _, _, _, ⟨sid', hsid, hexp⟩, _⟩ := returns_servers_batches h
+  cases hr
+  rw [hs] at hsid
+  cases hsid
+  rcases hexp with h1 | h1
+  · cases h1
+  · exact hne (Option.some.inj h1)
+
+/-- Encoding drift: an unsupported / malformed Content-Encoding, or a body the decompressor
+rejects, is never accepted. -/
+theorem drift_rejected_encoding (cfg : Cfg) (exp : Option String) (tid : Bool) (status : Nat) (clen : Int)
+    (rdErr : Bool) (elen : Nat) (ce xce : String) (dec : Option Nat) (rpc : Bool) (ss : List Ipc)
+    (trail : Nat)
+    (hbad : validEnc (encOf ce xce) = false ∨ decodedLen elen (encOf ce xce) dec = none) :
+    ∀ p, fetch cfg exp tid (.http status clen rdErr elen ce xce dec rpc ss trail) ≠ .ok p := by
+  intro p h
+  obtain ⟨_, _, _, _, _, _, _, hr, _, _, _, _, hv, ⟨n, hn, _⟩, _⟩ := returns_servers_batches h
+  cases hr
+  rcases hbad with hb | hb
+  · rw [hb] at hv; cases hv
+  · rw [hb] at hn; cases hn
+
+/-- Trailing bytes (or a further IPC stream) after the declared stream are never accepted. -/
+theorem drift_rejected_trailing (cfg : Cfg) (exp : Option String) (tid : Bool) (status : Nat) (clen : Int)
+    (rdErr : Bool) (elen : Nat) (ce xce : String) (dec : Option Nat) (rpc : Bool) (ss : List Ipc)
+    (trail : Nat) (hbad : trail > 0 ∨ ss.length ≠ 1) :
+    ∀ p, fetch cfg exp tid (.http status clen rdErr elen ce xce dec rpc ss trail) ≠ .ok p := by
+  intro p h
+  obtain ⟨_, _, _, _, _, _, _, hr, _⟩ := returns_servers_batches h
+  cases hr
+  rcases hbad with hb | hb
+  · omega
+  · exact hb rfl
+
+/-- Over-limit, error status, read error, RPC-error flag, unreadable / truncated stream. -/
+theorem malformed_rejected (cfg : Cfg) (exp : Option String) (tid : Bool) (status : Nat) (clen : Int)
+    (rdErr : Bool) (elen : Nat) (ce xce : String) (dec : Option Nat) (rpc : Bool) (ss : List Ipc)
+    (trail : Nat)
+    (hbad : clen > (cfg.maxEnc : Int) ∨ elen > cfg.maxEnc ∨
+            (∃ n, decodedLen elen (encOf ce xce) dec = some n ∧ n > cfg.maxDec) ∨
+            status < 200 ∨ status ≥ 300 ∨ rdErr = true ∨ rpc = true ∨
+            (∃ s ∈ ss, s.schema = none ∨ s.readErr = true)) :
+    ∀ p, fetch cfg exp tid (.http status clen rdErr elen ce xce dec rpc ss trail) ≠ .ok p := by
+  intro p h
+  obtain ⟨_, _, _, _, _, _, s, hr, h1, h2, h3, h4, _, ⟨n, hn, hn'⟩, ⟨sid, hsid, _⟩, hrd, _⟩ :=
+    returns_servers_batches h
+  cases hr
+  rcases hbad with hb | hb | ⟨n', hb, hb'⟩ | hb | hb | hb | hb | ⟨s', hs', hb⟩
+  · omega
+  · omega
+  · rw [hb] at hn; cases hn; omega
+  · omega
+  · omega
+  · cases hb
+  · cases hb
+  · have : s' = s := by simpa using hs'
+    subst this
+    rcases hb with hb | hb
+    · rw [hb] at hsid; cases hsid
+    · rw [hb] at hrd; cases hrd
+
+theorem transport_error_rejected (cfg : Cfg) (exp : Option String) (tid : Bool) :
+    fetch cfg exp tid .terr = .error .transport := rfl
+
+example : validEnc (encOf "br" "") = false := by decide
+example : validEnc (encOf "gzip," "") = false := by decide
+example : validEnc (encOf " GZip , identity" "") = true := by decide
+example : fetch ⟨4096, 8192⟩ (some "sch") false
+    (.http 200 900 false 900 "" "" none false [⟨some "other", exMsgs, false⟩] 0) = .error .typeErr := by decide
+example : fetch ⟨4096, 8192⟩ (some "sch") false
+    (.http 200 900 false 900 "" "" none false [⟨some "sch", exMsgs, false⟩] 3) = .error .protocol := by decide
+
+/-! ## 4. `Exchange`: one server batch per turn, or the stream is poisoned -/
+
+/-- Complete description of an exchange turn. (a) When a local check fails nothing is sent and
+the stream is untouched. (b) Otherwise the cursor is given up *before* anything is sent. (c) Only
+a response that is accepted in full, carries exactly one data batch and a new cursor re-arms the
+stream and returns that batch; (d) every other outcome — transport error, timeout, error status,
+over-limit / undecodable / malformed body, drift, exception, wrong batch count, missing cursor —
+is an error and leaves the stream without a cursor. -/
+theorem exchange_outcome (cfg : Cfg) (cc : Bool) (s : Stream) (inp : Input) (rs : List Resp) :
+    (¬ exGuard s inp → ∃ e, exchangeOp cfg cc s inp rs = (s, .err e, [])) ∧
+    (exGuard s inp → cc = true → exchangeOp cfg cc s inp rs = (poisoned s, .err .other, [])) ∧
+    (exGuard s inp → cc = false →
+      ∃ s' res, exchangeOp cfg cc s inp rs =
+          (s', res, [Event.sent .exchange ⟨s.token, s.callToken, false⟩, Event.recv .exchange (headResp rs)]) ∧
+        ((s' = poisoned s ∧ ∃ e, res = .err e) ∨
+          ∃ p b, fetch cfg (some s.outSchema) true (headResp rs) = .ok p ∧ p.batches = [b] ∧
+            p.token ≠ "" ∧ res = .batch b ∧ s'.token = p.token ∧ s'.finished = false)) := by
+  refine ⟨fun h => exchangeOp_refused h, ?_, ?_⟩
+  · intro hg hcc
+    rw [exchangeOp_guarded hg, hcc]; rfl
+  · intro hg hcc
+    subst hcc
+    obtain ⟨s', res, h1, _, _, h4⟩ := exchangeOp_sent (cfg := cfg) (rs := rs) hg
+    refine ⟨s', res, h1, ?_⟩
+    rcases h4 with h4 | ⟨p, b, a1, a2, a3, a4, a5, a6, _⟩
+    · exact Or.inl h4
+    · exact Or.inr ⟨p, b, a1, a2, a3, a4, a5, a6⟩
+
+/-- A batch returned by `Exchange` is the server's: the response was accepted in full
+(`returns_servers_batches` applies to it) and its only data batch is the one returned. -/
+theorem exchange_returns_servers_batch {cfg : Cfg} {cc : Bool} {s s' : Stream} {inp : Input}
+    {rs : List Resp} {b : Batch} {ev : List Event}
+    (h : exchangeOp cfg cc s inp rs = (s', .batch b, ev)) :
+    ∃ p sIpc status clen elen ce xce dec,
+      headResp rs = .http status clen false elen ce xce dec false [sIpc] 0 ∧
+      fetch cfg (some s.outSchema) true (headResp rs) = .ok p ∧
+      (dataMsgs true sIpc.msgs).map strip = [b] ∧
+      s'.token = lastNonEmpty "" (cursorSeq sIpc.msgs) ∧ s'.token ≠ "" ∧
+      ev = [Event.sent .exchange ⟨s.token, s.callToken, false⟩, Event.recv .exchange (headResp rs)] := by
+  obtain ⟨h1, h2, h3⟩ := exchange_outcome cfg cc s inp rs
+  by_cases hg : exGuard s inp
+  · cases cc with
+    | true => rw [h2 hg rfl] at h; cases h
+    | false =>
+      obtain ⟨s'', res, he, hout⟩ := h3 hg rfl
+      rw [he] at h
+      cases h
+      rcases hout with ⟨_, e, he'⟩ | ⟨p, b', hf, hb, ht, hr, hs't, _⟩
+      · cases he'
+      · cases hr
+        obtain ⟨status, clen, elen, ce, xce, dec, sIpc, hshape, _, _, _, _, _, _, _, _, _, hbat, htok, _⟩ :=
+          returns_servers_batches hf
+        refine ⟨p, sIpc, status, clen, elen, ce, xce, dec, hshape, hf, ?_, ?_, ?_, rfl⟩
+        · rw [← hbat, hb]
+        · rw [hs't, htok]
+        · rw [hs't]; exact ht
+  · obtain ⟨e, he⟩ := h1 hg
+    rw [he] at h; cases h
+
+/-- Poison: an `Exchange` that fails after a request may have left (or after the client was
+found closed at send time) leaves the stream with no cursor and finished. -/
+theorem exchange_poisons {cfg : Cfg} {cc : Bool} {s s' : Stream} {inp : Input} {rs : List Resp}
+    {e : Err} {ev : List Event}
+    (h : exchangeOp cfg cc s inp rs = (s', .err e, ev)) (hsent : ev ≠ []) :
+    s'.token = "" ∧ s'.finished = true := by
+  obtain ⟨h1, h2, h3⟩ := exchange_outcome cfg cc s inp rs
+  by_cases hg : exGuard s inp
+  · cases cc with
+    | true => rw [h2 hg rfl] at h; cases h; exact absurd rfl hsent
+    | false =>
+      obtain ⟨s'', res, he, hout⟩ := h3 hg rfl
+      rw [he] at h
+      cases h
+      rcases hout with ⟨hp, _⟩ | ⟨p, b', _, _, _, hr, _⟩
+      · rw [hp]; exact ⟨rfl, rfl⟩
+      · cases hr
+  · obtain ⟨e', he⟩ := h1 hg
+    rw [he] at h; cases h; exact absurd rfl hsent
+
+-- non-vacuity: a live exchange stream, (i) a clean turn, (ii) a response without cursor
+def exStream : Stream := ⟨true, "sch", "in", none, [], "t0", "c0", false, false⟩
+def turnMsgs : List Msg := [⟨1, "p9", "", [("S", "t1"), ("k", "v")]⟩]
+def okTurn : Resp := .http 200 700 false 700 "" "" none false [⟨some "sch", turnMsgs, false⟩] 0
+def noCursorTurn : Resp :=
+  .http 200 700 false 700 "" "" none false [⟨some "sch", [⟨1, "p9", "", [("k", "v")]⟩], false⟩] 0
+example : exGuard exStream ⟨"in", false⟩ := by decide
+example : exchangeOp ⟨4096, 8192⟩ false exStream ⟨"in", false⟩ [okTurn] =
+    ({ exStream with token := "t1" }, .batch ⟨"p9", 1, [("k", "v")]⟩,
+     [.sent .exchange ⟨"t0", "c0", false⟩, .recv .exchange okTurn]) := by decide
+example : exchangeOp ⟨4096, 8192⟩ false exStream ⟨"in", false⟩ [noCursorTurn] =
+    (poisoned exStream, .err .protocol,
+     [.sent .exchange ⟨"t0", "c0", false⟩, .recv .exchange noCursorTurn]) := by decide
+example : exchangeOp ⟨4096, 8192⟩ false exStream ⟨"in", false⟩ [] =
+    (poisoned exStream, .err .transport,
+     [.sent .exchange ⟨"t0", "c0", false⟩, .recv .exchange .terr]) := by decide
+
+/-! ## 5. After an ambiguous turn no request is ever sent again -/
+
+/-- Histories that keep working on the same stream object (no new `Open…` call). -/
+def noOpen (h : History) : Prop := ∀ x ∈ h, ∀ o, x.1 ≠ .open o
+
+/-- A stream without a cursor is silent for ever: over every further history of caller actions on
+it (against arbitrary responses, client closed or not) no continuation request goes on the wire,
+and every `Exchange` fails locally. -/
+theorem dead_stream_sends_nothing : ∀ (h : History) (w : World) (s : Stream),
+    w.st = some s → s.token = "" → noOpen h →
+      contCursors (run w h).2.2 = [] ∧
+      (∀ x ∈ h.zip (run w h).2.1, ∀ inp, x.1.1 = .exchange inp → ∃ e, x.2 = .err e)
+  | [], _, _, _, _, _ => by simp [run, contCursors]
+  | (op, rs) :: h, w, s, hst, ht, hno => by
+    obtain ⟨⟨s1, hs1, ht1⟩, hev, hex⟩ :=
+      step_dead w op rs s hst ht (hno (op, rs) (List.mem_cons_self ..))
+    obtain ⟨ih1, ih2⟩ := dead_stream_sends_nothing h (stepOp w op rs).1 s1 hs1 ht1
+      (fun x hx => hno x (List.mem_cons_of_mem _ hx))
+    simp only [run]
+    refine ⟨?_, ?_⟩
+    · rw [contCursors_append, ih1]
+      rcases hev with hev | ⟨r, hev⟩
+      · rw [hev]; rfl
+      · rw [hev]; simp [contCursors, isCont]
+    · intro x hx inp hxi
+      simp only [List.zip_cons_cons] at hx
+      rcases List.mem_cons.mp hx with rfl | hx
+      · exact hex inp hxi
+      · exact ih2 x hx inp hxi
+
+/-- Poison after ambiguity, over histories: if an `Exchange` on any stream state fails after its
+request may have left, then whatever the caller does with that stream afterwards and whatever
+the network answers, no continuation request is sent again and every later `Exchange` fails. -/
+theorem poison_after_ambiguity (w : World) (s : Stream) (inp : Input) (rs : List Resp) (h : History)
+    (hst : w.st = some s) (hno : noOpen h)
+    (hfail : ∃ e, (stepOp w (.exchange inp) rs).2.1 = .err e)
+    (hsent : (stepOp w (.exchange inp) rs).2.2 ≠ []) :
+    contCursors (run (stepOp w (.exchange inp) rs).1 h).2.2 = [] ∧
+    (∀ x ∈ h.zip (run (stepOp w (.exchange inp) rs).1 h).2.1, ∀ inp', x.1.1 = .exchange inp' →
+      ∃ e, x.2 = .err e) := by
+  obtain ⟨e, he⟩ := hfail
+  simp only [stepOp, hst] at he hsent ⊢
+  have hp := exchange_poisons (cfg := w.cfg) (cc := w.cc) (s := s) (inp := inp) (rs := rs)
+    (s' := (exchangeOp w.cfg w.cc s inp rs).1) (e := e) (ev := (exchangeOp w.cfg w.cc s inp rs).2.2)
+    (by rw [← he]) hsent
+  exact dead_stream_sends_nothing h _ _ rfl hp.1 hno
+
+example : contCursors (run ⟨⟨4096, 8192⟩, false, some exStream⟩
+    [(.exchange ⟨"in", false⟩, [noCursorTurn]), (.exchange ⟨"in", false⟩, [okTurn]), (.cancel, [okTurn]),
+     (.next, [okTurn])]).2.2 = ["t0"] := by decide
+
+/-! ## 6. Never replays a cursor (invariant over arbitrary op / fault histories) -/
+
+/-- Worlds and histories that only ever hold exchange streams (the clause is about exchange
+turns: a producer continuation is an idempotent read and `Next` may retry it). -/
+def exchWorld (w : World) : Prop := ∀ s, w.st = some s → s.exchange = true
+def exchOnly (h : History) : Prop := ∀ x ∈ h, ∀ o, x.1 = .open o → o.exchange = true
+
+/-- The wire trace of every history passes the ledger scan: each continuation request (exchange
+or cancel) carries a non-empty cursor that the server handed out in an earlier response and that
+has not been sent since it was (last) handed out. No hypothesis on the responses. -/
+theorem never_replays_scan (w : World) (h : History) (hw : w.st = none) (hh : exchOnly h) :
+    (scan ⟨[], []⟩ (run w h).2.2).isSome = true := by
+  have hi : LedgerInv w ⟨[], []⟩ := by intro s hs; rw [hw] at hs; cases hs
+  obtain ⟨l', hs, _⟩ := run_ledger h w ⟨[], []⟩ hi (fun x hx o ho => hh x hx o ho)
+  rw [hs]; rfl
+
+/-- Same, started from any exchange stream whose cursor is known to the ledger. -/
+theorem never_replays_scan_from (w : World) (h : History) (l : Ledger) (hi : LedgerInv w l)
+    (hh : exchOnly h) : ∃ l', scan l (run w h).2.2 = some l' ∧ LedgerInv (run w h).1 l' :=
+  run_ledger h w l hi (fun x hx o ho => hh x hx o ho)
+
+/-- `never_replays` in the form of the design: if the server never hands out the same cursor
+twice (`freshTokens`), the cursors of all continuation requests the client ever sends are pairwise
+distinct — over every history of opens, exchanges, cancels, closes and arbitrary faults. -/
+theorem never_replays (w : World) (h : History) (hw : w.st = none) (hh : exchOnly h)
+    (hfresh : freshTokens [] (run w h).2.2) : (contCursors (run w h).2.2).Nodup := by
+  have hi : LedgerInv w ⟨[], []⟩ := by intro s hs; rw [hw] at hs; cases hs
+  obtain ⟨l', hs, _⟩ := run_ledger h w ⟨[], []⟩ hi (fun x hx o ho => hh x hx o ho)
+  exact (scan_nodup _ ⟨[], []⟩ l' hs hfresh (by intro c hc; cases hc)).1
+
+-- non-vacuity: open, two clean turns, a turn whose answer is lost, further attempts, a cancel
+def initResp : Resp :=
+  .http 200 500 false 500 "" "" none false [⟨some "sch", [⟨0, "p", "", [("S", "t0"), ("C", "c0")]⟩], false⟩] 0
+def turn2 : Resp :=
+  .http 200 700 false 700 "" "" none false [⟨some "sch", [⟨1, "q", "", [("S", "t2")]⟩], false⟩] 0
+def exHistory : History :=
+  [(.open ⟨true, none, "sch", "in"⟩, [initResp]), (.exchange ⟨"in", false⟩, [okTurn]),
+   (.exchange ⟨"in", false⟩, [turn2]), (.exchange ⟨"in", false⟩, [.terr]),
+   (.exchange ⟨"in", false⟩, [okTurn]), (.cancel, [okTurn])]
+example : exchOnly exHistory := by
+  intro x hx o ho
+  simp only [exHistory, List.mem_cons, List.not_mem_nil, or_false] at hx
+  rcases hx with rfl | rfl | rfl | rfl | rfl | rfl <;> cases ho <;> rfl
+example : contCursors (run ⟨⟨4096, 8192⟩, false, none⟩ exHistory).2.2 = ["t0", "t1", "t2"] := by decide
+example : freshTokens [] (run ⟨⟨4096, 8192⟩, false, none⟩ exHistory).2.2 := by decide
+
+/-! ## 7. Producer streams: `Next` hands out the server's batches in order -/
+
+/-- Caller actions on a producer stream that neither replace it nor drop its unread batches. -/
+def prodOp (op : Op) : Prop := (∀ o, op ≠ .open o) ∧ op ≠ .close ∧ (∀ e, op ≠ .unary e)
+
+theorem step_delivery (w : World) (op : Op) (rs : List Resp) (s : Stream)
+    (hst : w.st = some s) (hex : s.exchange = false) (hop : prodOp op) :
+    ∃ s', (stepOp w op rs).1.st = some s' ∧ s'.exchange = false ∧ s'.outSchema = s.outSchema ∧
+      delivered (stepOp w op rs).2.1 ++ s'.pending
+        = s.pending ++ acceptedNext w.cfg s.outSchema (stepOp w op rs).2.2 := by
+  obtain ⟨ho, hc, hu⟩ := hop
+  cases op with
+  | «open» o => exact absurd rfl (ho o)
+  | close => exact absurd rfl hc
+  | unary e => exact absurd rfl (hu e)
+  | clientClose => exact ⟨s, hst, hex, rfl, by simp [stepOp, delivered, acceptedNext]⟩
+  | stat => exact ⟨s, hst, hex, rfl, by simp [stepOp, delivered, acceptedNext]⟩
+  | exchange inp =>
+    have hg : ¬ exGuard s inp := fun hg => by rw [hg.2.1] at hex; cases hex
+    obtain ⟨e, he⟩ := exchangeOp_refused (cfg := w.cfg) (cc := w.cc) (rs := rs) hg
+    simp only [stepOp, hst, he]
+    exact ⟨s, rfl, hex, rfl, by simp [delivered, acceptedNext]⟩
+  | cancel =>
+    simp only [stepOp, hst]
+    by_cases hidle : cancelIdle s
+    · rw [cancelOp_idle hidle]
+      exact ⟨_, rfl, hex, rfl, by simp [delivered, acceptedNext]⟩
+    · obtain ⟨res, hres⟩ := cancelOp_live (cfg := w.cfg) (cc := w.cc) (rs := rs) hidle
+      rw [hres]
+      refine ⟨_, rfl, hex, rfl, ?_⟩
+      have hres' : delivered res = [] := by
+        -- Cancel never returns a batch
+        have := hres
+        unfold cancelOp at this
+        unfold cancelIdle at hidle
+        simp only [hidle, if_false] at this
+        split at this
+        · cases this; rfl
+        · split at this
+          · cases this; rfl
+          · split at this <;> (cases this; rfl)
+      rw [hres']
+      cases w.cc <;> simp [poisoned, acceptedNext]
+  | next =>
+    simp only [stepOp, hst]
+    unfold nextOp
+    by_cases hcl : s.closed = true
+    · simp only [hcl, if_true]
+      exact ⟨s, rfl, hex, rfl, by simp [delivered, acceptedNext]⟩
+    · simp only [hcl, hex, if_false, Bool.false_eq_true]
+      obtain ⟨evNew, h1, h2, h3, h4, _⟩ := nextLoop_delivery w.cfg w.cc rs s []
+      refine ⟨_, rfl, by rw [h4]; exact hex, h3, ?_⟩
+      rw [h2, h1]; rfl
+
+/-- Over every history of `Next` / `Cancel` / misdirected `Exchange` calls on a producer stream,
+against arbitrary responses: what `Next` handed out so far followed by what is still buffered is
+exactly what the stream was opened with followed by the data batches of every continuation
+response that was accepted — in order, nothing lost, nothing duplicated, nothing invented. -/
+theorem producer_delivers_servers_batches : ∀ (h : History) (w : World) (s : Stream),
+    w.st = some s → s.exchange = false → (∀ x ∈ h, prodOp x.1) →
+      ∃ s', (run w h).1.st = some s' ∧
+        (run w h).2.1.flatMap delivered ++ s'.pending
+          = s.pending ++ acceptedNext w.cfg s.outSchema (run w h).2.2
+  | [], w, s, hst, _, _ => ⟨s, hst, by simp [run, acceptedNext]⟩
+  | (op, rs) :: h, w, s, hst, hex, hop => by
+    obtain ⟨s1, hs1, hex1, hout1, hd1⟩ :=
+      step_delivery w op rs s hst hex (hop (op, rs) (List.mem_cons_self ..))
+    obtain ⟨s2, hs2, hd2⟩ := producer_delivers_servers_batches h (stepOp w op rs).1 s1 hs1 hex1
+      (fun x hx => hop x (List.mem_cons_of_mem _ hx))
+    refine ⟨s2, by simpa [run] using hs2, ?_⟩
+    simp only [run, List.flatMap_cons, acceptedNext_append]
+    rw [stepOp_cfg, hout1] at hd2
+    rw [List.append_assoc, hd2, ← List.append_assoc, hd1, List.append_assoc]
+
+def prodStream : Stream := ⟨false, "sch", "", none, [⟨"b0", 1, []⟩], "t0", "c0", false, false⟩
+def prodCont : Resp :=
+  .http 200 700 false 700 "" "" none false
+    [⟨some "sch", [⟨1, "b1", "", [("u", "1")]⟩, ⟨1, "b2", "", []⟩, ⟨0, "z", "", [("S", "t1")]⟩], false⟩] 0
+example : ((run ⟨⟨4096, 8192⟩, false, some prodStream⟩
+    [(.next, []), (.next, [prodCont]), (.next, []), (.next, [.terr]), (.next, [])]).2.1).flatMap delivered
+    = [⟨"b0", 1, []⟩, ⟨"b1", 1, [("u", "1")]⟩, ⟨"b2", 1, []⟩] := by decide
 
 end Vgi.Props.C21
